@@ -112,6 +112,106 @@ def retitle(schema, rng, seen):
     return new
 
 
+# --- key scope: every key of an instance object is input too.  The library derives the scope under which the value beneath a key is
+# validated (and reported) from the key itself, by a different piece of code for each keyword that routes a value to a sub-schema;
+# so keys from the whole string space are put through every such route, with the value beneath them accepted AND refused by the
+# sub-schema (a refusal is what makes the library build an error that names the scope), at the top and inside every construct that
+# catches refusals (there the error is built and swallowed, and the right outcome may even be acceptance).
+KEY_NAMES = UNICODE + ["__dict__", "class", "_dict", "1", "a.b", "\u0001", "", "\uffff", "__module__", "__slots__", "__typename__", "__version__", "--verbose--",
+                       "  padded  ", "__", "____", "__x", "_x_", "{0}", "{", "}", "/pets/{petId}", "%s", "%(a)s", "{a!r}", "{0.__class__}", "<unbound>", "None",
+                       "blank", "default", "self", "0", "-1", "[0]", "$ref", "properties", "\n", "x" * 3000]
+# (sub-schema, values it accepts, values it refuses - directly, and one level further down where that exists)
+KEY_SUBSCHEMAS = [
+    ({"type": "integer"}, [1], ["x", None]),
+    ({"maxLength": 1}, ["a", 7], ["too long"]),
+    ({"minimum": 10}, [11, "s"], [3]),
+    ({"enum": [1, "a"]}, ["a"], [2, []]),
+    ({"const": None}, [None], [0]),
+    (False, [], [None, 1]),
+    (True, [1, {"": 1}], []),
+    ({"type": ["string", "null"]}, [None, ""], [1]),
+    ({"type": "string", "pattern": "^a"}, ["ab"], ["b", 1]),
+    ({"multipleOf": 3}, [9], [10]),
+    ({"uniqueItems": True}, [[1, 2]], [[1, 1]]),
+    ({"required": ["r"]}, [{"r": 1}], [{}, {"": 1}]),
+    ({"items": {"type": "integer"}}, [[1], "s"], [["x"], [1, [2]]]),
+    ({"type": "array", "items": [{"type": "string"}], "additionalItems": False}, [["a"]], [[1], ["a", 1], {}]),
+    ({"not": {"type": "string"}}, [1], ["s"]),
+    ({"anyOf": [{"type": "integer"}, {"type": "null"}]}, [1, None], ["s"]),
+    ({"oneOf": [{"minimum": 0}, {"maximum": 10}]}, [-1, 11], [5]),
+    ({"type": "object", "title": "Sub", "properties": {"id": {"type": "integer"}}, "required": ["id"]}, [{"id": 1}], [{"id": "s"}, {}, 1]),
+    ({"additionalProperties": {"type": "integer"}}, [{"": 1}, {}], [{"": "x"}, {"k": None}]),
+    ({"propertyNames": {"minLength": 1}}, [{"k": 1}], [{"": 1}]),
+]
+KEY_PATTERNS = ["", "^", "(?s)^.*$", "$"]      # each is found in every string
+
+
+def key_routes(k, sub, rng):
+    """(route, schema, wrap-a-value-into-an-instance): every keyword through which the value beneath key `k` reaches `sub`"""
+    def s():
+        return sub if isinstance(sub, bool) else json_copy(sub)
+    yield "additionalProperties", {"additionalProperties": s()}, lambda v: {k: v}
+    yield "additionalProperties-object", {"type": "object", "title": "Thing", "properties": {"declared": {"type": "string"}}, "additionalProperties": s()}, lambda v: {"declared": "ok", k: v}
+    yield "additionalProperties-after-miss", {"patternProperties": {"^never-matches$": {}}, "properties": {"declared": {}}, "additionalProperties": s()}, lambda v: {k: v, "declared": 1}
+    yield "patternProperties", {"patternProperties": {rng.choice(KEY_PATTERNS): s()}}, lambda v: {k: v}
+    yield "patternProperties-closed", {"type": "object", "title": "Pat", "patternProperties": {rng.choice(KEY_PATTERNS): s()}, "additionalProperties": False}, lambda v: {k: v}
+    yield "properties", {"properties": {k: s()}}, lambda v: {k: v}
+    yield "properties-object", {"type": "object", "title": "Thing", "properties": {k: s()}, "required": [k]}, lambda v: {k: v}
+    yield "properties+additional", {"properties": {k: {}}, "additionalProperties": s()}, lambda v: {k: v}
+    yield "dependencies", {"dependencies": {k: {"additionalProperties": s()}}}, lambda v: {k: v}
+
+
+KEY_WRAPPERS = {
+    "top": (lambda x: x, lambda k, i: i),
+    "anyOf": (lambda x: {"anyOf": [{"type": "null"}, x]}, lambda k, i: i),
+    "oneOf": (lambda x: {"oneOf": [x, {"type": "null"}]}, lambda k, i: i),
+    "allOf": (lambda x: {"allOf": [{}, x]}, lambda k, i: i),
+    "not": (lambda x: {"not": x}, lambda k, i: i),
+    "items": (lambda x: {"items": x}, lambda k, i: [i]),
+    "items-tuple": (lambda x: {"items": [{}, x]}, lambda k, i: [0, i]),
+    "contains": (lambda x: {"contains": x}, lambda k, i: [1, i]),
+    "property": (lambda x: {"type": "object", "title": "Outer", "properties": {"p": x}}, lambda k, i: {"p": i}),
+    "same-key-again": (lambda x: {"additionalProperties": x}, lambda k, i: {k: i}),
+    "dependencies": (lambda x: {"dependencies": {"trigger": x}}, lambda k, i: dict(i, trigger=1)),
+}
+
+
+def key_class(k):
+    if k == "":
+        return "empty"
+    if len(k) > 100:
+        return "very-long"
+    if any(ord(c) < 32 or c in "\u007f\u200b\u202e\ufeff\u00ad" for c in k):
+        return "control-format"
+    if not k.isascii():
+        return "non-ascii"
+    if k.isidentifier():
+        return "ascii-identifier"
+    if k.strip() != k or not k.strip():
+        return "whitespace"
+    return "ascii-other"
+
+
+def key_scope_cases(rng, n_random):
+    """(key, route, wrapper, schema, values): every fixed key through every route at the top (sub-schemas take turns), and again inside a
+    random refusal-catching construct; then random keys (from the character classes the titles are drawn from) likewise"""
+    keys = [k for k in KEY_NAMES if not core.has_surrogate(k)] + [random_title(rng) for _ in range(n_random)]
+    wraps = sorted(KEY_WRAPPERS)
+    turn = rng.randrange(len(KEY_SUBSCHEMAS))
+    for k in keys:
+        if core.has_surrogate(k):
+            continue
+        n_routes = len(list(key_routes(k, True, random.Random(0))))
+        for r in range(n_routes):
+            for wname in ("top", rng.choice([w for w in wraps if w != "top"])):
+                turn += 1
+                sub, goods, bads = KEY_SUBSCHEMAS[turn % len(KEY_SUBSCHEMAS)]
+                route, schema, inst = list(key_routes(k, sub, rng))[r]
+                wrap_schema, wrap_inst = KEY_WRAPPERS[wname]
+                values = [wrap_inst(k, inst(json_copy(v))) for v in bads + goods] + [wrap_inst(k, {}), wrap_inst(k, {"other": 1})]
+                yield k, route, wname, wrap_schema(schema), values, len(bads), len(goods)
+
+
 def deep(n, leaf=1):
     v = leaf
     for i in range(n):
@@ -381,6 +481,7 @@ def run(ctx, scale=1.0):
     out = Outcome()
     out.rule = ("extreme stream: schemas and values from the generator in extreme mode (2^53±1, 10^30, 10^400, 1e308, 5e-324, "
                 "huge/tiny multipleOf), deep nesting (<=150), unusual Unicode strings and keys, plus the focused families; "
+                "key-scope family: instance keys from the whole string space through every keyword that routes the value beneath a key to a sub-schema, value accepted and refused, at the top and inside every refusal-catching construct; "
                 "a case is a (schema, value) pair, all are counted non-trivial; distinct by SHA-256; depth family: acyclic schemas nested L/8..12L levels "
                 "(L = recursion limit) through every sub-schema keyword and const/enum/default literals nested as deep, given to parse_element() and parse(): "
                 "a case is (recipe, entry point), outcome must be 'returned' or an error of the schema-parse family")
@@ -435,6 +536,17 @@ def run(ctx, scale=1.0):
             check_case(drv, {"required": [name]}, [{}, {"other": 1}], out, stats)
             check_case(drv, {"dependencies": {"a": [name]}}, [{"a": 1}], out, stats)
             check_case(drv, {"propertyNames": {"maxLength": 0}}, [{name: 1}], out, stats)
+        # instance keys from the whole string space through every keyword that routes the value beneath a key to a sub-schema
+        for k, route, wname, schema, values, n_bad, n_good in key_scope_cases(rng, int((40 if ctx["tier"] == "quick" else 1500) * scale)):
+            bump(stats, "keyscope-key-" + key_class(k))
+            bump(stats, "keyscope-route-" + route)
+            bump(stats, "keyscope-in-" + wname)
+            stats["keyscope-values-refused-by-subschema"] = stats.get("keyscope-values-refused-by-subschema", 0) + n_bad
+            stats["keyscope-values-accepted-by-subschema"] = stats.get("keyscope-values-accepted-by-subschema", 0) + n_good
+            before = (stats.get("impl-ok", 0), stats.get("impl-reject", 0))
+            check_case(drv, schema, values, out, stats)
+            stats["keyscope-impl-ok"] = stats.get("keyscope-impl-ok", 0) + stats.get("impl-ok", 0) - before[0]
+            stats["keyscope-impl-reject"] = stats.get("keyscope-impl-reject", 0) + stats.get("impl-reject", 0) - before[1]
         for m in (0.5, 1e-300, 5e-324, 1e300, 3, 10 ** 400, 2 ** 60 + 1):
             for x in (1e308, 10 ** 400, 10 ** 30, 7, 0.1, 2 ** 1024, -1e308):
                 check_case(drv, {"multipleOf": m}, [x], out, stats)
